@@ -13,6 +13,8 @@ CONSTANTS
   Feat = {"restart", "reject"}
   SyncWal = TRUE
   SyncData = TRUE
+  InitRid = 1
+  InitCid = 0
   Mut = {}
   GenLen = 30
 SPECIFICATION GenSpec
